@@ -1,6 +1,7 @@
 """Task bodies run by the simulated workers of E-SIM (module-level so that they pickle by reference).
 Every body logs Start/Finish with its own task id and the pid of the simulated process it runs in, and returns a
 value that encodes its own submission, so a mis-routed or duplicated task cannot produce the expected value."""
+import os
 import threading
 from . import esim
 
@@ -22,11 +23,14 @@ class Unpicklable:
 class UnpicklableOS:
     """pickling it fails with an OSError (e.g. a file-backed argument whose file vanished)"""
 
-    def __init__(self, tag):
+    def __init__(self, tag, errno=2):
         self.tag = tag
+        self.errno = errno
 
     def __reduce__(self):
-        raise FileNotFoundError(2, "No such file or directory: %s" % self.tag)
+        # 2: a file that vanished; 9: a descriptor that was closed (a closed socket as argument); 32: a reducer that talks to
+        # a peer that is gone (BrokenPipeError)
+        raise OSError(self.errno, "%s: %s" % (os.strerror(self.errno), self.tag))
 
 
 class UnpicklableError(Exception):
@@ -51,6 +55,12 @@ def _fail_load(tag):
 
 def value_of(tid):
     return ["value", tid, tid * 7 + 1]
+
+
+def body_kw(tid, salt=0, kind="ok"):
+    """called through functools.partial(body_kw, salt=..., kind=...): the bound keywords are part of the task"""
+    v = body(tid, kind)
+    return ["kw", tid, salt] if v == value_of(tid) else v
 
 
 def body(tid, kind, arg=None):
